@@ -8,7 +8,7 @@ CONSTANTS
   AtomicLaunch = TRUE
   ErrFirst = FALSE
   HookKinds = {"none"}
-SPECIFICATION Spec
-INVARIANTS CommandsAfterDependencies StopsAtFailure FinalOK RunOnlyWhileStageRunning UpBeforeUse DownAfterAll OneUpAtATime NothingRunsAtReturn NoDoubleLaunch
-PROPERTY Terminates
+INIT InitErrLate
+NEXT Next
+INVARIANTS FinalOK
 CHECK_DEADLOCK FALSE
